@@ -148,6 +148,27 @@ def run_gate(case):
     if np.abs(M2 - M).max() > TOL:
         raise Violation(f"{name}{kw}: the gate acts differently after the caller overwrote, in place, the matrix it "
                         f"got from U / U_full", key="gate-matrix-aliased")
+    # A gate object is a circuit of the user's: a copy of it may be unpacked and extended, and the object itself may be
+    # extended - neither may change what the library's constructor hands out next, nor (for the copy) the object.
+    def build():
+        if name in ("Rx", "Ry", "Rz", "P"):
+            return getattr(qubit, name)(kw["theta"])
+        return getattr(qubit, name)(**kw)
+    dup = call("copy", g.copy)
+    call("copy.unpack_groups", dup.unpack_groups)
+    call("copy.ps", dup.ps, 0, 0.7)
+    call("copy.bs", dup.bs, 0, 1)
+    M3 = amplitude_matrix(g, n, "Heralded" in name)
+    if np.abs(M3 - M).max() > TOL:
+        raise Violation(f"{name}{kw}: the gate acts differently after a copy of it was unpacked and extended",
+                        key="gate-shares-structure-with-copy")
+    call("gate.ps", g.ps, 0, 0.9)                 # now the object itself is extended ...
+    call("gate.bs", g.bs, 0, 1)
+    g2 = call(f"{name}() again", build)
+    M4 = amplitude_matrix(g2, n, "Heralded" in name)      # ... and a newly constructed gate is still the named gate
+    if np.abs(M4 - M).max() > TOL:
+        raise Violation(f"{name}{kw}: a newly constructed gate is not the named gate any more after an earlier "
+                        f"instance was extended through the Circuit API", key="gate-instances-shared")
     return {"nontrivial": np.abs(V - np.eye(2 ** n)).max() > 1e-9, "labels": [name]}
 
 
